@@ -2,12 +2,16 @@ INIT Init
 NEXT Next
 CONSTANTS
 MaxFields = 3
-HotKinds = {"bool", "int", "uint8", "float", "string", "float32", "*float32", "[]float32", "[2]float32", "map[string]float32", "[]anyF", "lstring", "[]anyP", "L1", "Str1", "Str2", "Col1", "Col2", "Col3", "*int", "*S", "[]int", "[]uint8", "[]S", "[]*S", "[2]S", "map[string]S", "[2]int", "map[string]int", "map[string]string", "map[string]*S", "map[string]M", "map[string]*M", "[]M", "[]*M", "any", "S", "anon", "time", "E1", "*E1", "E2", "E3", "E4", "Tree", "List", "Node", "*Node", "[]Node", "map[string]Tree", "P", "Ma", "EN", "*EN", "EA", "N", "*N", "[]N", "map[string]N", "IS1", "IS64", "IP1", "*P2", "*Q2", "R1", "[0]uint8", "[1]uint8", "[4]uint8", "BA4", "BS", "[][4]uint8", "[]BS", "map[string][4]uint8", "T1", "T2", "*T2", "U", "V", "W", "Tagged", "Unexp", "Emb", "EmbPtr", "Simp", "PSimp", "Gen", "JM", "PJM", "TM", "MyInt"}
+HotKinds = {"bool", "int", "uint8", "float", "string", "float32", "*float32", "[]float32", "[2]float32", "map[string]float32", "[]anyF", "lstring", "[]anyP", "L1", "Str1", "Str2", "Col1", "Col2", "Col3", "*int", "*S", "[]int", "[]uint8", "[]S", "[]*S", "[2]S", "map[string]S", "[2]int", "map[string]int", "map[string]string", "map[string]*S", "map[string]M", "map[string]*M", "[]M", "[]*M", "any", "S", "anon", "time", "E1", "*E1", "E2", "E3", "E4", "Pair[int]", "Pair[string]", "Pair[Pair[int]]", "*Pair[int]", "[]Pair[int]", "anyPair", "Doc", "Doc2", "Dia", "Dia2", "SP", "E0", "[1]*int", "[1]*S", "Meta", "*Meta", "[]Meta", "map[string]Meta", "Ev", "LogT", "Hat", "Deep3", "Deep4", "Deep5", "Deep6", "Tree", "List", "Node", "*Node", "[]Node", "map[string]Tree", "P", "Ma", "EN", "*EN", "EA", "N", "*N", "[]N", "map[string]N", "IS1", "IS64", "IP1", "*P2", "*Q2", "R1", "[0]uint8", "[1]uint8", "[4]uint8", "BA4", "BS", "[][4]uint8", "[]BS", "map[string][4]uint8", "T1", "T2", "*T2", "U", "V", "W", "Tagged", "Unexp", "Emb", "EmbPtr", "Simp", "PSimp", "Gen", "JM", "PJM", "TM", "MyInt"}
 HotTags = {"", "nm", "oe", "nmoe", "str", "dash", "dashc"}
 NbrSet = "quick"
-EmbKinds = {"E1", "*E1", "E2", "E3", "E4", "*P2", "*Q2", "R1"}
+EmbKinds = {"E1", "*E1", "E2", "E3", "E4", "*P2", "*Q2", "R1", "Stamp", "Base", "B1", "C1", "D0"}
+EmbGraph = {"Stamp", "Base", "B1", "C1", "D0"}
+DeepBases = {"S"}
+MaxDepth = 6
+DeepAll = TRUE
 NameMenu = {"A", "ID", "Ab", "URL", "Abc", "AbC", "DNSX", "AbCd", "ABcd"}
-TwoVariant = {"[0]uint8", "[1]uint8", "bool", "int", "uint8", "string", "[2]float32", "[2]int", "time", "MyInt", "Simp", "PSimp", "Gen", "JM", "PJM", "TM"}
+TwoVariant = {"E0", "[0]uint8", "[1]uint8", "bool", "int", "uint8", "string", "[2]float32", "[2]int", "time", "MyInt", "Simp", "PSimp", "Gen", "JM", "PJM", "TM"}
 NbrDistinct = FALSE
 CONSTRAINT Emit
 CHECK_DEADLOCK FALSE
